@@ -13,6 +13,7 @@ mod c04;
 mod c07;
 mod c08;
 mod c09;
+mod c10;
 mod c11;
 mod c12;
 mod c13;
@@ -20,6 +21,7 @@ mod c14;
 mod c15;
 mod graphref;
 mod c16;
+mod c17;
 mod c18;
 mod ilgen;
 mod locgraph;
@@ -34,7 +36,9 @@ fn make_check(prop: &str, tier: Tier) -> Option<Box<dyn Check>> {
         "C07" => Box::new(c07::C07::new(tier)),
         "C08" => Box::new(c08::C08::new(tier)),
         "C09" => Box::new(c09::C09::new(tier)),
+        "C10" => Box::new(c10::C10::new(tier)),
         "C11" => Box::new(c11::C11::new(tier)),
+        "C17" => Box::new(c17::C17::new(tier)),
         "C18" => Box::new(c18::C18::new(tier)),
         "C12" => Box::new(c12::C12::new(tier)),
         "C13" => Box::new(c13::C13::new(tier)),
